@@ -271,6 +271,24 @@ theorem C06_else_refused (cfg : SrvCfg) (tls : B → Bool) (chunks : List B) :
     | exact Or.inr (Or.inl ⟨_, rfl, by decide, rfl⟩)
     | (exfalso; simp_all [readRequest_ne_panic])
 
+/-- **the client proceeds only on 200 then 101**: a client session implies two well-formed replies whose status
+    codes are exactly the two constants of client.go, and the version it reports is the first `Protocol-Version` value
+    of the first reply. -/
+theorem C06_client_admits_only (s0 : Bool) (tls : B → Bool) (chunks : List B)
+    (v : B) (t : Tech) (s : Bool) (l : B)
+    (h : (clientRun s0 tls chunks).out = .established v t s l) :
+    ∃ resp r1 resp2 r2,
+      readResponse (chunks.flatten.length + 2) ⟨[], chunks⟩ = .ok (resp, r1) ∧ resp.code = Gen.cliHandshakeStatus ∧
+      readResponse (chunks.flatten.length + 2) r1 = .ok (resp2, r2) ∧ resp2.code = Gen.cliUpgradeStatus ∧
+      v = hget resp.headers bProtocolVersion := by
+  revert h
+  simp only [clientRun, clientOn]
+  repeat' split
+  all_goals (intro h; simp_all)
+  all_goals first
+    | exact ⟨_, _, ⟨rfl, rfl⟩, by assumption, _, ⟨_, by assumption⟩, by assumption, h.1.symm⟩
+    | skip
+
 /-- the places of the handshake files that can panic and that the model was written against: the slice
     expressions of the two line parsers (proved in range above) and the `panic(err)` calls of the two `String()`
     renderers, which only fire when writing to a `bytes.Buffer` fails (it never does). -/
@@ -306,5 +324,6 @@ end SA.Handshake
 #print axioms SA.Handshake.C06_no_panic_client
 #print axioms SA.Handshake.C06_admits_only_wellformed
 #print axioms SA.Handshake.C06_session_only_after_101
+#print axioms SA.Handshake.C06_client_admits_only
 #print axioms SA.Handshake.C06_else_refused
 #print axioms SA.Handshake.C06_panic_site_inventory
